@@ -46,7 +46,7 @@
 (***************************************************************************)
 EXTENDS Integers, Sequences, FiniteSets, TLC
 
-CONSTANT Variant   \* "required" | "modes_elements" | "shomate_S" | "chemkin_Hact" | "nasa_Cp"
+CONSTANT Variant   \* "required" | "modes_elements" | "shomate_S" | "chemkin_Hact" | "nasa_Cp" | "shomate_native"
 
 \* ---------------------------------------------------------------- classes
 ModeKinds == {"FreeTrans", "HarmonicVib", "QRRHOVib", "EinsteinVib", "DebyeVib",
@@ -145,13 +145,29 @@ Shapes(cls) == IF cls \in Empirical THEN {"scalar", "array"} ELSE {"scalar"}
 \* array of temperatures does not evaluate in either form, so no coverage model there
 ArrayOK(cls, o) == cls = "Shomate" => "x" \notin o
 
+\* An empirical species is built gas phase (the library attaches its pressure model) or
+\* condensed (no pressure model; then no misc model at all unless a coverage is asked for).
+Phases(cls) == IF cls \in Empirical THEN {"gas", "condensed"} ELSE {"none"}
+\* A Shomate polynomial stores its coefficients in a unit of its own (`units` attribute, any
+\* key of the R table).  The relation must hold whatever that unit is, in particular when the
+\* caller asks for the very same unit: the object is built in several fitting units and asked
+\* in every unit string, its own included (MustAsk is asked in every tier).
+NoUnit == [e |-> "none", per |-> "none"]
+OwnUnits(cls) == IF cls = "Shomate"
+                 THEN {[e |-> "J", per |-> "mol"], [e |-> "kJ", per |-> "mol"],
+                       [e |-> "cal", per |-> "mol"], [e |-> "eV", per |-> "molecule"]}
+                 ELSE {NoUnit}
+PhaseOpts(ph, acc) == IF ph = "condensed" THEN acc \ {"P"} ELSE acc
+
 CellsOf(cls, form, q) ==
    IF ~HasGetter(cls, form, q) THEN {}
    ELSE {c \in {[cls |-> cls, form |-> form, q |-> q, state |-> s, opts |-> o,
-                 shape |-> sh, tgiven |-> tg] :
+                 shape |-> sh, tgiven |-> tg, phase |-> ph, own |-> ow] :
                    s \in (IF form = "state" THEN States ELSE {"none"}),
                    o \in SUBSET Accepted(cls, form, q),
-                   sh \in Shapes(cls), tg \in BOOLEAN} :
+                   sh \in Shapes(cls), tg \in BOOLEAN,
+                   ph \in Phases(cls), ow \in OwnUnits(cls)} :
+           /\ c.opts \subseteq PhaseOpts(c.phase, Accepted(cls, form, q))
            /\ c.shape = "array" => ArrayOK(cls, c.opts)
            /\ ~c.tgiven => (HasDefaultT(cls, form, q) /\ c.opts = {} /\ c.shape = "scalar")}
 
@@ -163,7 +179,10 @@ UnitsOf(c) == {u \in Units : PerMass(u) => c.cls \in SpeciesCls}
 \* (References has no get_FoRT: a referenced species has no F unless references are off)
 NeedsRefs(c) == /\ c.cls \in {"StatMech", "Reaction"}
                 /\ ~(c.q = "F" /\ "use_references" \notin c.opts)
-NeedsCov(c) == c.cls \in SpeciesCls \cup RxnCls /\ ~(c.cls = "Shomate" /\ c.shape = "array")
+NeedsCov(c) == /\ c.cls \in SpeciesCls \cup RxnCls
+               /\ ~(c.cls = "Shomate" /\ c.shape = "array")
+               /\ c.phase = "condensed" => "x" \in c.opts      \* else: a species with NO misc model
+MustAsk(c) == IF c.own = NoUnit THEN {} ELSE {c.own}
 ResultShape(c) == IF "verbose" \in c.opts THEN "verbose" ELSE c.shape
 
 \* ------------------------------------------------- the wrapper, symbolically
@@ -188,7 +207,9 @@ KwT(c) == LET all == (KwD(c) \ {"units"}) \cup {d[1] : d \in Defaults(c)}
 Required(c, u) ==
    [raises |-> FALSE, twin |-> Twin(c.form, c.q), kw |-> KwT(c), dflt |-> Defaults(c),
     timesT |-> Energy(c.q), rkey |-> RKey(u),
-    mass |-> IF PerMass(u) THEN u.per ELSE "none"]
+    mass |-> IF PerMass(u) THEN u.per ELSE "none",
+    \* every term of the twin is scaled, the entropy of the elements included
+    allTerms |-> TRUE]
 
 \* keywords the twin's value can depend on
 Relevant(c) ==
@@ -205,22 +226,27 @@ Dropped(c) ==
      [] Variant = "nasa_Cp" /\ c.cls \in {"Nasa", "Nasa9"} /\ c.q = "Cp" -> c.opts
      [] OTHER -> {}
 \* _ModelBase.get_Cp/U/S/F/G read self.elements before anything else
+\* seeded change C04-5: a "native units" shortcut of Shomate.get_S (requested unit = own unit,
+\* no misc model) subtracts the dimensionless entropy of the elements from a dimensional value
+NativeShortcut(c, u) == /\ Variant = "shomate_native" /\ c.cls = "Shomate" /\ c.q = "S"
+                        /\ u = c.own /\ ~NeedsCov(c) /\ c.phase = "condensed"
+                        /\ "S_elements" \in c.opts
 ImplRaises(c) == Variant = "modes_elements" /\ c.cls \in ModeKinds
                  /\ c.q \in {"Cp", "U", "S", "F", "G"}
 Impl(c, u) == IF ImplRaises(c) THEN [Required(c, u) EXCEPT !.raises = TRUE]
-              ELSE [Required(c, u) EXCEPT !.kw = @ \ Dropped(c)]
+              ELSE [Required(c, u) EXCEPT !.kw = @ \ Dropped(c), !.allTerms = ~NativeShortcut(c, u)]
 
 Same(i, r, c) ==
    /\ ~i.raises
    /\ i.twin = r.twin /\ i.dflt = r.dflt
    /\ i.kw \cap Relevant(c) = r.kw \cap Relevant(c)
-   /\ i.timesT = r.timesT /\ i.rkey = r.rkey /\ i.mass = r.mass
+   /\ i.timesT = r.timesT /\ i.rkey = r.rkey /\ i.mass = r.mass /\ i.allTerms = r.allTerms
 
 \* ------------------------------------------------------------ state machine
 VARIABLES pc, cell, unit, res
 vars == <<pc, cell, unit, res>>
 NoRes == [raises |-> FALSE, twin |-> "", kw |-> {}, dflt |-> {}, timesT |-> FALSE,
-          rkey |-> "", mass |-> "none"]
+          rkey |-> "", mass |-> "none", allTerms |-> TRUE]
 
 Init == /\ cell \in Cells /\ unit \in UnitsOf(cell) /\ pc = "call" /\ res = NoRes
 Call == /\ pc = "call" /\ pc' = "ret" /\ res' = Impl(cell, unit)
@@ -238,7 +264,9 @@ WellFormed ==
    /\ KwT(cell) \subseteq (KwD(cell) \ {"units"}) \cup {d[1] : d \in Defaults(cell)}
    /\ Getter(cell.form, cell.q) # Twin(cell.form, cell.q)
    /\ RKey(unit) \in DOMAIN RTable
-   /\ cell.opts \subseteq Accepted(cell.cls, cell.form, cell.q)
+   /\ cell.opts \subseteq PhaseOpts(cell.phase, Accepted(cell.cls, cell.form, cell.q))
+   /\ MustAsk(cell) \subseteq UnitsOf(cell)
+   /\ (cell.phase = "none") = (cell.cls \notin Empirical)
    /\ PerMass(unit) => cell.cls \in SpeciesCls
    /\ (cell.form = "state") = (cell.state \in States)
 
